@@ -62,7 +62,8 @@ ClassOf(t) == IF IsNanTok(t) THEN "nan" ELSE IF IsInfTok(t) THEN (IF t[1] = 45 T
 \* a count printed as a float: digits only (no fraction, no exponent) for the magnitudes generated here
 RECURSIVE NatOf(_, _, _)
 NatOf(s, i, acc) == IF i > Len(s) THEN acc ELSE NatOf(s, i + 1, acc * 10 + (s[i] - 48))
-IsNatTok(t) == Len(t) \in 1..9 /\ AllDigits(t, 1, Len(t))
+\* counts are compared as digit strings (a u64 count does not fit TLC's integers); no sign, no leading zero except "0" itself
+IsNatTok(t) == Len(t) \in 1..20 /\ AllDigits(t, 1, Len(t)) /\ (Len(t) > 1 => t[1] # 48)
 IsIntTok(t) == LET u == Unsigned(t) IN Len(u) >= 1 /\ AllDigits(u, 1, Len(u)) /\ (t[1] # 43)
 
 \* unescape: "\\" -> "\", "\n" -> newline, and inside label values "\"" -> quote.  result [ok, s]
@@ -164,7 +165,7 @@ SampleLine(s) ==
   ELSE IF ~cur.on \/ cur.type = <<>> THEN Fail("sample before TYPE") /\ UNCHANGED <<out, cur, open, toks>>
   ELSE IF cur.type \in {TCOUNTER, TGAUGE, TUNTYPED} THEN
        /\ IF p.name = cur.name THEN UNCHANGED bad ELSE Fail("sample name does not belong to the family")
-       /\ cur' = [cur EXCEPT !.metrics = Append(@, [labels |-> p.labels, ts |-> p.ts, val |-> ClassOf(p.vtok), bk |-> <<>>, count |-> 0, sum |-> "fin", qs |-> <<>>])]
+       /\ cur' = [cur EXCEPT !.metrics = Append(@, [labels |-> p.labels, ts |-> p.ts, val |-> ClassOf(p.vtok), bk |-> <<>>, count |-> <<>>, sum |-> "fin", qs |-> <<>>])]
        /\ toks' = toks \o Tok(p.vtok) /\ UNCHANGED <<out, open>>
   ELSE \* histogram or summary: several lines make one metric
        LET isH == cur.type = THISTOGRAM
@@ -183,7 +184,7 @@ SampleLine(s) ==
        ELSE IF ~same THEN Fail("lines of one metric disagree in labels or timestamp") /\ UNCHANGED <<out, cur, open, toks>>
        ELSE IF part = "bucket" THEN
             /\ IF o.hasSum \/ ~HasLabel(p.labels, LE_) \/ ~ValidValueTok(xtok) \/ ~IsNatTok(p.vtok) THEN Fail("malformed bucket line") ELSE UNCHANGED bad
-            /\ open' = [o EXCEPT !.bk = Append(@, [le |-> ClassOf(xtok), cc |-> IF IsNatTok(p.vtok) THEN NatOf(p.vtok, 1, 0) ELSE 0])]
+            /\ open' = [o EXCEPT !.bk = Append(@, [le |-> ClassOf(xtok), cc |-> IF IsNatTok(p.vtok) THEN p.vtok ELSE <<>>])]
             /\ toks' = toks \o Tok(xtok) /\ UNCHANGED <<out, cur>>
        ELSE IF part = "quantile" THEN
             /\ IF o.hasSum \/ ~ValidValueTok(xtok) THEN Fail("malformed quantile line") ELSE UNCHANGED bad
@@ -195,7 +196,7 @@ SampleLine(s) ==
             /\ toks' = toks \o Tok(p.vtok) /\ UNCHANGED <<out, cur>>
        ELSE \* count closes the metric
             /\ IF ~o.hasSum \/ ~IsNatTok(p.vtok) THEN Fail("_count without _sum or not a count") ELSE UNCHANGED bad
-            /\ cur' = CloseOpen(cur, o, IF IsNatTok(p.vtok) THEN NatOf(p.vtok, 1, 0) ELSE 0)
+            /\ cur' = CloseOpen(cur, o, IF IsNatTok(p.vtok) THEN p.vtok ELSE <<>>)
             /\ open' = NoOpen /\ UNCHANGED <<out, toks>>
 
 Line == /\ E.ev = "line"
@@ -205,10 +206,14 @@ Line == /\ E.ev = "line"
            ELSE IF s = <<>> \/ s[1] = HASH THEN Fail("blank or comment line") /\ UNCHANGED <<out, cur, open, toks>>
            ELSE SampleLine(s)
 
+\* order of two counts given as digit strings without leading zeros
+RECURSIVE DigLexLeq(_, _, _)
+DigLexLeq(a, b, i) == IF i > Len(a) THEN TRUE ELSE IF a[i] # b[i] THEN a[i] < b[i] ELSE DigLexLeq(a, b, i + 1)
+DigLeq(a, b) == Len(a) < Len(b) \/ (Len(a) = Len(b) /\ DigLexLeq(a, b, 1))
 \* every histogram shows its cumulative buckets plus a +Inf bucket equal to the count
 HistShape(f) == f.type = THISTOGRAM => \A i \in DOMAIN f.metrics : LET m == f.metrics[i] IN
                    /\ Len(m.bk) >= 1 /\ m.bk[Len(m.bk)].le = "pinf" /\ m.bk[Len(m.bk)].cc = m.count
-                   /\ \A j \in 1..(Len(m.bk) - 1) : m.bk[j].cc <= m.bk[j + 1].cc
+                   /\ \A j \in 1..(Len(m.bk) - 1) : DigLeq(m.bk[j].cc, m.bk[j + 1].cc)
 Verdict(fams) == IF bad # "" THEN bad
                  ELSE IF open.on THEN "unfinished metric at end of output"
                  ELSE IF fams # E.exp THEN "parsed families differ from the encoded ones"
